@@ -384,7 +384,10 @@ Proof.
 Qed.
 
 Lemma separated_disjoint a b : separated a b = true -> intersects a b = false.
-Proof. unfold separated, intersects, empty, b_end. intros. lia. Qed.
+Proof.
+  unfold separated, intersects, empty, b_end.
+  destruct (b_len a =? 0) eqn:Ea, (b_len b =? 0) eqn:Eb; intros; lia.
+Qed.
 
 Section Valid.
   Variable g : geom.
@@ -515,7 +518,7 @@ Section ZoneProofs.
     now replace (f + off - off) with f by lia.
   Qed.
   (* a frame handed out by the wrapper can be given back: the inner allocator sees its own frame *)
-  Lemma zone_get_put_roundtrip off s rq f c s' f0 :
+  Lemma zone_get_put_roundtrip off s rq c s' f0 :
     off + frames <= W64 -> inner_get s None rq = (Ok (f0, c), s') ->
     zget off s None rq = (Ok (f0 + off, c), s') /\ forall rq', zput off s' (f0 + off) rq' = inner_put s' f0 rq'.
   Proof.
@@ -605,9 +608,10 @@ Section NvmProofs.
     hm <> NVM_MAGIC \/ hf <> z - 1 -> nvm_create g fs base z true hm hf = Err EInit.
   Proof.
     intros H. pose proof (nvm_create_spec base z true hm hf) as S.
-    destruct (nvm_create g fs base z true hm hf) as [[[off l] wr]|e|p]; try tauto.
-    - destruct S as (_ & _ & _ & _ & S). destruct (S eq_refl). tauto.
+    destruct (nvm_create g fs base z true hm hf) as [[[off l] wr]|e|p]; cbn beta iota in S.
+    - exfalso. destruct S as (_ & _ & _ & _ & S). destruct (S eq_refl). tauto.
     - now subst.
+    - tauto.
   Qed.
   Lemma nvm_create_misaligned base z rec hm hf :
     base mod (fs * TF g) <> 0 -> nvm_create g fs base z rec hm hf = Err EInit.
